@@ -94,6 +94,29 @@ def run_case(case, tier):
 
         do_round(2.0)  # calibration flush
         extra = 0
+        twin = None
+        if case.get("n", 0) % 4 == 1:
+            # a second manager in the same interpreter carries traffic of its own (types 9900..9903) all the while: none
+            # of it belongs into this manager's reports
+            import logging as _lg
+            import threading as _th
+            import pyrtma.manager as _pm
+            B = _pm.MessageManager("127.0.0.1", 0, timecode=bool(case.get("tc")), log_level=_lg.CRITICAL + 10, send_msg_timing=True)
+            tb = _th.Thread(target=B.run, daemon=True, name="vf-second-manager")
+            tb.start()
+            bc = W.WireClient(rig.drainer, B.listen_socket.getsockname(), "twinpub", timecode=rig.timecode)
+            bc.send_frame(W.MT_CONNECT_V2, W.p_connect_v2(0, 0, 0, 70, 4242, b""), src_mod=70)
+            bc.send_frame(W.MT_CONNECT, W.p_connect(0, 0), src_mod=70)
+            twin = (B, tb, bc)
+
+        def twin_traffic():
+            if twin:
+                try:
+                    for k_ in range(rng.randint(1, 6)):
+                        twin[2].send_frame(9900 + k_ % 4, b"", src_mod=70)
+                except OSError:
+                    pass
+            return None
         for iv in case["ints"]:
             types = rng.sample(POOL, iv["nd"])
             if iv["oor"] and types:
@@ -138,6 +161,7 @@ def run_case(case, tier):
                     do_round(0.0001)
             while sc.any_pending() and not (sc.crashed or sc.hung):
                 do_round(0.0001)
+            twin_traffic()
             # the last messages of the interval are serviced in the reporting round itself (before the timers)
             for j, (t, dm, dh) in enumerate(last):
                 sc.issue(["pub", pubs[j % len(pubs)], t, dm, dh, 0])
@@ -146,11 +170,22 @@ def run_case(case, tier):
                 sc.issue(["disc", f"x{extra - 1}"])
         while sc.any_pending() and not (sc.crashed or sc.hung):
             do_round(0.0001)
+        twin_traffic()
         do_round(6.0)
         do_round(2.0)
         rig.settle()
-        return judge(sc, case, snaps, published, rclock)
+        res_ = judge(sc, case, snaps, published, rclock)
+        if twin:
+            res_["counters"]["cases_with_a_second_manager"] = 1
+        return res_
     finally:
+        try:
+            if twin:
+                twin[0].close()
+                twin[1].join(2)
+                twin[2].close()
+        except Exception:
+            pass
         rig.close()
 
 
